@@ -59,7 +59,9 @@ func (e *Eval) doCall(fr *Frame, cc *ssa.CallCommon, args []Val, fnval Val, st *
 	name := calleeName(cc)
 	site := e.site(name)
 	sig := cc.Signature()
-	// at-clauses of the root contract (requires)
+	// at-clauses of the root contract (ghost steps, then requires)
+	e.atGhost(fr, cc, name, site, args, st, cur)
+	e.atClauses(fr, cc, name, site, "presume", args, nil, st, st, cur)
 	e.atClauses(fr, cc, name, site, "requires", args, nil, st, st, cur)
 	var oc Outcome
 	switch {
@@ -768,12 +770,12 @@ func (e *Eval) atClauses(fr *Frame, cc *ssa.CallCommon, name, site, kind string,
 			env.bind(fmt.Sprintf("ret%d", i), results[i], sig.Results().At(i).Type())
 		}
 		var g string
-		if kind == "assume" {
+		if kind == "assume" || kind == "presume" {
 			g = env.evalBool(ex)
 		} else {
 			g = env.evalGoal(ex)
 		}
-		if kind == "assume" {
+		if kind == "assume" || kind == "presume" {
 			e.c.Assert(implies(cur, g))
 			e.c.Assume("assumed at call of " + name + " in " + e.rootKey + ": " + at.Clause.Text)
 			continue
@@ -818,6 +820,37 @@ func (e *Eval) atClosure(fr *Frame, x *ssa.MakeClosure, binds []Val, st *State, 
 			lbl = "at"
 		}
 		e.oblige(fmt.Sprintf("closure@%s/%s", e.site(relName(fn)), lbl), "callsite", at.Clause.Props, cur, g, at.Clause.Text, at.Clause.Where)
+	}
+}
+
+// atGhost: `at <callee> ghost <directive>` clauses of the function under
+// verification: ghost bookkeeping done just before a call (e.g. a dying
+// child's link reference is taken back before it is dropped).
+func (e *Eval) atGhost(fr *Frame, cc *ssa.CallCommon, name, site string, args []Val, st *State, cur string) {
+	if e.rootC == nil || cc == nil || fr != e.root {
+		return
+	}
+	for _, at := range e.rootC.At {
+		if at.Kind != "ghost" || !calleeMatches(at.Callee, name) {
+			continue
+		}
+		env := e.newEnv(e.rootPkg, st, e.entry)
+		e.bindParams(env, e.root)
+		e.bindCells(env, e.root)
+		sig := cc.Signature()
+		off := 0
+		if cc.IsInvoke() {
+			env.bind("recv", args[0], cc.Value.Type())
+			off = 1
+		} else if sig.Recv() != nil && len(args) > 0 {
+			env.bind("recv", args[0], sig.Recv().Type())
+			off = 1
+		}
+		for i := 0; i < sig.Params().Len() && off+i < len(args); i++ {
+			env.bind(fmt.Sprintf("arg%d", i), args[off+i], sig.Params().At(i).Type())
+		}
+		e.applyGhost(&Contract{Ghost: []string{at.Clause.Text}}, env, st, st, cur, site)
+		e.c.Assume("ghost step before " + name + " in " + e.rootKey + ": " + at.Clause.Text)
 	}
 }
 
